@@ -232,8 +232,10 @@ def reference_reply(wire):
     return code, [t.decode('utf-8', 'surrogateescape') for t in texts]
 
 
-def read_replies(wire, pieces_list):
-    '''Feed `wire` under each segmentation to a real ControlStream.read_reply; returns list of outcomes.'''
+def read_replies(wire, pieces_list, eof_with_last=False):
+    '''Feed `wire` under each segmentation to a real ControlStream.read_reply; returns list of outcomes.
+    eof_with_last: the end of the stream arrives together with the last piece (the server closes right after its last
+    word), before the client gets to read that piece.'''
     from wpull.network.connection import Connection
     from wpull.protocol.ftp.stream import ControlStream
     outs = []
@@ -246,6 +248,11 @@ def read_replies(wire, pieces_list):
             conn.spawn(self._go(conn))
 
         async def _go(self, conn):
+            if eof_with_last:
+                if await conn.feed_pieces(self.pieces[:-1]):
+                    conn.feed(self.pieces[-1])
+                    conn.feed_eof()
+                return
             await conn.feed_pieces(self.pieces)
             conn.feed_eof()
 
@@ -284,6 +291,9 @@ def check_reply(case, part, rng):
             prev = p
         segs.append(pieces)
     outs = read_replies(wire, segs)
+    # the same segmentations on another schedule: the server's close is already known when the client reads the last piece
+    outs += read_replies(wire, segs, eof_with_last=True)
+    segs = segs + segs
     part.evaluations += len(outs)
     part.count('reply_reads', len(outs))
     part.nontrivial_case('reply/{}/{}/{}'.format(case['kind'], case['code'], len(case['text_lines'])))
